@@ -37,6 +37,12 @@ def measure(ctx, n_detached, angles, n_vertex):
     for k in range(n_detached):
         kind = ['rect', 'para', 'tri'][k % 3]
         Pi, ni, Pj, nj = geomgen.detached_pair(rng, kind)
+        if k % 3 != 2 and k % 2 == 1:
+            # the same kind of pair in a large hall: axis-parallel but for a slight cant, tens of
+            # metres from the origin (the envelope covers any placement)
+            Pi, ni, Pj, nj = geomgen.far_canted_pair(rng)
+            kind = 'rect'
+            ctx.count('detached.far_canted')
         Ai = ffref.area(Pi)
         ref = ffref.contour_ref(Pi, Pj, Ai, n=16, levels=3)
         if ref < 1e-4:
